@@ -587,10 +587,12 @@ class Gen:
             src = self.pick(["url(", "url(", "URL(", "Url(", "uRL( "]) + self.string(self.pick(IMPORT_PATHS_STR)) + ")"
         t = src
         if self.chance(1, 3):
+            # (the `layer` keyword and the names of the `layer(` / `supports(` functions are ASCII case-insensitive)
             t += s() + self.pick(["layer", "layer(" + self.pick(LAYER_NAMES) + ")", "layer(" + self.pick(LAYER_NAMES) + ")",
-                                  "layer(a.b)", "layer( base )"])
+                                  "layer(a.b)", "layer( base )", "LAYER", "Layer(" + self.pick(LAYER_NAMES) + ")", "LAYER(" + self.pick(LAYER_NAMES) + ")"])
         if self.chance(1, 4):
-            t += s() + "supports(" + self.pick(["display: grid", "not (display: grid)", "(a: b) and (c: d)", "width: 1rpx", "display:flex"]) + ")"
+            t += s() + self.pick(["supports(", "supports(", "supports(", "Supports(", "SUPPORTS("]) + \
+                self.pick(["display: grid", "not (display: grid)", "(a: b) and (c: d)", "width: 1rpx", "display:flex"]) + ")"
         if self.chance(1, 3):
             t += s() + self.media_query_list()
         return t + o() + ";"
